@@ -9,10 +9,14 @@
      parity equation, symbols combined with any commutative, associative, nilpotent xor), every
      symbol the streaming decoder holds - received or rebuilt - equals the codeword's symbol at that
      column: ldpc_available_symbols_equal_codeword (first sentence of the property, IT path).
-   Missing in Coq: the ML finish path and the Reed-Solomon algebra; for those the decoded bytes are
-   compared with the encoded source on the C side for every session of the correspondence. *)
+   - ML finish (MLModel.v, see Properties_C03.v for the full statement): after of_finish_decoding every
+     symbol held - received, rebuilt by the simplification or produced by the Gaussian elimination -
+     is the codeword's: ldpc_finish_never_returns_a_wrong_symbol.
+   Reed-Solomon: the canonical code determines the sources from any k positions (Properties_C02.v) and
+   the Gauss-Jordan inversion model is correct (GaussJordan.v); the decoded bytes are also compared with
+   the encoded source on the C side for every session of the correspondence. *)
 From Coq Require Import Arith List Bool.
-From OFV Require Import ITModel ITProofs.
+From OFV Require Import LdpcEnc ITModel ITProofs MLModel MLCorollaries.
 Import ListNotations.
 
 Theorem ldpc_complete_implies_all_sources_available :
@@ -49,6 +53,23 @@ Theorem ldpc_available_symbols_equal_codeword :
   forall c v, nth c (tab s) None = Some v -> v = cw c.
 Proof. exact run_values. Qed.
 
+Theorem ldpc_finish_never_returns_a_wrong_symbol :
+  forall (Sy : Type) (sxor : Sy -> Sy -> Sy) (s0 : Sy),
+  (forall a b c, sxor a (sxor b c) = sxor (sxor a b) c) -> (forall a b, sxor a b = sxor b a) ->
+  (forall a, sxor s0 a = a) -> (forall a, sxor a a = s0) ->
+  forall (H0 : list (list nat)) (R0 N0 : nat),
+  length H0 = R0 -> (forall i, i < R0 -> NoDup (nth i H0 [])) ->
+  (forall i c, i < R0 -> In c (nth i H0 []) -> c < N0) -> (forall i, i < R0 -> 2 <= length (nth i H0 [])) -> R0 <= N0 ->
+  (forall c, c < N0 -> exists i, i < R0 /\ In c (nth i H0 [])) -> stair R0 H0 -> (exists a : Sy, a <> s0) ->
+  forall cw : nat -> Sy, (forall i, i < R0 -> fold_right sxor s0 (map cw (nth i H0 [])) = s0) ->
+  forall (hist : list (nat * Sy)) (s : st Sy) fuel perm (o : outcome Sy),
+  (forall ev, In ev hist -> fst ev < N0 /\ snd ev = cw (fst ev)) -> run Sy sxor s0 H0 R0 N0 (S N0) hist = Some s ->
+  N0 < fuel -> (forall c, c < R0 -> In c perm) -> (forall c, In c perm -> c < R0) ->
+  ml_finish sxor s0 fuel perm s = Some o ->
+  forall c v, nth c (tab (o_st o)) None = Some v -> v = cw c.
+Proof. exact ml_session_values. Qed.
+
 Print Assumptions ldpc_complete_implies_all_sources_available.
+Print Assumptions ldpc_finish_never_returns_a_wrong_symbol.
 Print Assumptions ldpc_available_symbols_equal_codeword.
 Print Assumptions ldpc_available_symbols_are_justified_partial.
